@@ -35,7 +35,10 @@ CFG = dict(
         "reload may take the older record back while the AHT files keep the leaf appended last (ResetSize does not shrink "
         "them) -- the replica then answers 'invalid blRoot' for ever. The harness ends a case at the first reopening after "
         "such an acceptance (and at a reopening with embedded values and nothing committed, where the mis-parsed values "
-        "prefix leaves an unmodelled BlRoot in the tx holder); what it saw is in the report of the builder",
+        "prefix leaves an unmodelled BlRoot in the tx holder); likewise at a reopening after records were appended behind "
+        "discarded ones (which of the left-overs behind the logical end of the tx log survive later appends depends on "
+        "byte sizes; the model drops them at the next append), and tx 1 is not re-precommitted after a concurrent batch "
+        "(which pooled tx holder it would get is a matter of goroutine scheduling)",
         "the _refuted witnesses (coq/Repl/Witness.v) use the executable SHA-256 over Coq's primitive 63-bit integers "
         "(kernel primitives PrimInt63.*, listed by Print Assumptions); they are compiled with Properties/C07.v but the "
         "seven theorems restated there are closed under the global context",
